@@ -13,6 +13,9 @@ struct HistCase
                               // keeps its packet objects): what an encoder remembers about "the packet at this address" must not matter
     uint32_t bulkFrames{0};  // > 0: the history starts with one call of that many one-byte packets at max = 25 (one frame each), which
                              // brings the 16-bit sequence counter - the one state that legitimately survives - next to its wrap
+    uint8_t idMode{0};  // 0: the ids are configured once, before the history.  1..3: "arbitrary configurations" - every history call ran
+                        // under its own ids (1: device and stream id, 2: only the stream id, 3: only the device id differ), set through the
+                        // setters before that call; before the call under test the ids are set to dev / stream
     void io(Ar& a)
     {
         a.num("dev", dev);
@@ -21,6 +24,7 @@ struct HistCase
         last.io(a);
         a.optionalNum("bulkFrames", bulkFrames);
         a.optionalNum("reuseObjects", reuseObjects);
+        a.optionalNum("idMode", idMode);
     }
 };
 
@@ -56,6 +60,13 @@ static Verdict runCase(const HistCase& c, Info& info)
     };
     for (const auto& h : c.history)
     {
+        if (c.idMode)
+        {
+            if (c.idMode != 2)
+                a.setDeviceId(h.dev);
+            if (c.idMode != 3)
+                a.setStreamId(h.stream);
+        }
         auto owned = c.reuseObjects ? std::vector<lib::Packet>() : buildBatch(h);
         std::vector<lib::Packet>& batch = c.reuseObjects ? fromPool(h) : owned;
         if (h.abortAfter >= 0)
@@ -65,6 +76,15 @@ static Verdict runCase(const HistCase& c, Info& info)
         }
         else
             encodeVia(a, batch, lib::DataContext{h.minB, h.maxB}, h.overload);
+    }
+    if (c.idMode && !c.history.empty())
+    {
+        // only the setters whose value differs are called (a setter restarts the counter; calling both would hide what one alone leaves behind)
+        if (c.idMode != 2 && a.getDeviceId() != c.dev)
+            a.setDeviceId(c.dev);
+        if (c.idMode != 3 && a.getStreamId() != c.stream)
+            a.setStreamId(c.stream);
+        info.tag("history_calls_ran_under_other_ids");
     }
     auto ownedLast = c.reuseObjects ? std::vector<lib::Packet>() : buildBatch(c.last);
     std::vector<lib::Packet>& batch = c.reuseObjects ? fromPool(c.last) : ownedLast;
@@ -162,6 +182,22 @@ static rc::Gen<HistCase> genCase(int tier)
             c.last.packets.front().len = std::min(c.last.packets.front().len, PacketRecipe::maxLen(prev.kind));
             if (prev.kind == rkGeneric && c.last.packets.front().len == 0)
                 c.last.packets.front().len = 1;
+        }
+        // a quarter of the cases: the history calls ran under other device / stream ids; half of those continue with the frame size and
+        // version of the last history call (whatever an encoder keeps per configuration must follow the ids too)
+        if (!c.history.empty() && *range<int>(0, 3) == 0)
+        {
+            c.idMode = *range<uint8_t>(1, 3);
+            size_t totalBytes = 0;
+            for (const auto& r : c.last.packets)
+                totalBytes += payloadLengthOf(r);
+            const uint32_t hMax = c.history.back().maxB;
+            if (*range<int>(0, 1) == 0 && totalBytes / (hMax - 24) <= 20000)  // bounded work: the final batch stays below ~20000 frames
+            {
+                c.last.version = c.history.back().version;
+                c.last.maxB = hMax;
+                c.last.minB = std::min(c.history.back().minB, c.last.maxB);
+            }
         }
         // packets with a payload object of zero bytes (they put no message on the wire but may open a frame) in the history
         // and in the final batch
